@@ -81,17 +81,16 @@ def bufferSize (h : Handler) (c : List Nat) : Nat :=
 /-! ### route map (`_makeConnectionMap`) -/
 
 structure RouteMap where
-  dist : Array (Array Nat)
-  route : Array (Array (List Nat))
-deriving Repr
+  dist : Nat → Nat → Nat            -- distanceMap[a][b]   (layouts are numbered in dict order)
+  route : Nat → Nat → List Nat      -- self._route_map[a][b]
 
 namespace RouteMap
-def d (m : RouteMap) (a b : Nat) : Nat := (m.dist.getD a #[]).getD b 0
-def r (m : RouteMap) (a b : Nat) : List Nat := (m.route.getD a #[]).getD b []
+def d (m : RouteMap) (a b : Nat) : Nat := m.dist a b
+def r (m : RouteMap) (a b : Nat) : List Nat := m.route a b
 def setD (m : RouteMap) (a b v : Nat) : RouteMap :=
-  { m with dist := m.dist.setIfInBounds a ((m.dist.getD a #[]).setIfInBounds b v) }
+  { m with dist := fun x y => if x = a ∧ y = b then v else m.dist x y }
 def setR (m : RouteMap) (a b : Nat) (v : List Nat) : RouteMap :=
-  { m with route := m.route.setIfInBounds a ((m.route.getD a #[]).setIfInBounds b v) }
+  { m with route := fun x y => if x = a ∧ y = b then v else m.route x y }
 end RouteMap
 
 /-- Python's list-of-str `<` -/
@@ -140,9 +139,9 @@ def dijkstra (names : List String) (conn : List (List Nat)) (order : List Nat) (
     Returns the map and the "all connected" flag. -/
 def routeMap (names : List String) (conn : List (List Nat)) (order : List Nat) : RouteMap × Bool :=
   let n := names.length
-  if n = 1 then ({ dist := #[], route := #[] }, true) else
+  if n = 1 then ({ dist := fun _ _ => 0, route := fun _ _ => [] }, true) else
   let inf := n + 1
-  let m0 : RouteMap := { dist := Array.replicate n (Array.replicate n inf), route := Array.replicate n (Array.replicate n []) }
+  let m0 : RouteMap := { dist := fun _ _ => inf, route := fun _ _ => [] }
   let m1 := (List.range n).foldl (fun m a => (conn.getD a []).foldl (fun m b => (m.setD a b 1).setR a b (m.r a b ++ [b])) m) m0
   let m2 := (List.range n).foldl (fun m s => dijkstra names conn order s n ((List.range n).filter (· ≠ s)) m) m1
   let mx := (List.range n).foldl (fun acc a => (List.range n).foldl (fun acc b => if a ≠ b ∧ m2.d a b > acc then m2.d a b else acc) acc) 0
